@@ -193,7 +193,8 @@ class Driver:
 
 def build_nvx(dest: Path, which=("utf8validator", "xormasker"), extra_cdef=None):
     """compile /repo's NVX C sources with cffi into dest; returns dict name -> module path dir.
-    Internal (non-public) entry points are added to the cdef so that they can be called directly."""
+    Internal (non-public) entry points can be added to the cdef so that they can be called directly:
+    extra_cdef = {"utf8validator": "int _nvx_utf8vld_validate_table (void*, const uint8_t*, size_t);"}"""
     code = r'''
 import sys, os, re
 from cffi import FFI
@@ -219,16 +220,18 @@ CDEF = {
     int nvx_xormask_get_impl(void* xormask);
  """,
 }
+import json
+EXTRA = json.loads(sys.argv[4]) if len(sys.argv) > 4 else {}
 for w in which:
     ffi = FFI()
-    ffi.cdef(CDEF[w])
+    ffi.cdef(CDEF[w] + EXTRA.get(w, ""))
     with open(os.path.join(src_dir, "_%s.c" % w)) as fd:
         c = fd.read()
     ffi.set_source("_nvx_%s" % w, c, libraries=[], extra_compile_args=["-std=c99", "-O2", "-march=x86-64-v2"])
     ffi.compile(tmpdir=dest, verbose=False)
 '''
     dest.mkdir(parents=True, exist_ok=True)
-    p = subprocess.run([PY, "-c", code, str(SRC / "nvx"), str(dest), ",".join(which)],
+    p = subprocess.run([PY, "-c", code, str(SRC / "nvx"), str(dest), ",".join(which), json.dumps(extra_cdef or {})],
                        capture_output=True, text=True, cwd="/")
     if p.returncode != 0:
         raise RuntimeError("NVX rebuild failed:\n" + p.stdout[-2000:] + p.stderr[-2000:])
